@@ -386,3 +386,67 @@ def direct_edit_skeletons():
         for k, t in enumerate(texts):
             out.append(Skeleton("de/%s/%d" % (rule, k), t, meta={"rule": "rule:" + rule, "first_line": 0}))
     return out
+
+
+# ---------------------------------------------------------------------------------------------------
+# rule patterns at every position of a file (C04: statements at end of file, first, only, nested)
+
+EOF_SNIPS = [
+    "if x:\n    a = 1\n    c()\nelse:\n    a = 2\n    c()\n",
+    "if x:\n    c()\n    a = 1\nelse:\n    c()\n    a = 2\n",
+    "if 7000 > 7001:\n    a()\nelse:\n    b()\n",
+    "if x:\n    y = True\nelse:\n    y = False\n",
+    "for i in range(7000):\n    out.append(i)\n",
+    "out = []\nfor i in range(7000):\n    out.append(i)\n",
+    "while x:\n    y = 7000\n    x -= y\n",
+    "for i in r:\n    if i > 7000:\n        a(1)\n        a(2)\n        a(3)\n        a(4)\n        a(5)\n        a(6)\n",
+    "x = 7000 > 7001 and y\n",
+    "y = [i for i in range(7000) if i > 7001]\n",
+    "x == None\n",
+    "if x:\n    pass\nelse:\n    b()\n",
+    "if 1 / 0:\n    a()\n",
+    "for i in 5:\n    a()\n",
+    "z = f'{x!r:>{7000}}'\n",
+    "x = lambda: 0\n",
+    "assert x, 'm'\n",
+    "try:\n    a()\nexcept E:\n    raise V()\n",
+    "with open(p) as f:\n    d = f.read()\n",
+    "f = open(p)\nd = f.read()\nf.close()\n",
+    "import os, sys\n",
+    "from os import *\n",
+    "x = {**{1: 2}, **d}\n",
+    "def g():\n    return 1\n\n\ndef h():\n    return 1\n",
+    "class C:\n    def m(self):\n        return 7000\n",
+    "x = a if a else b\n",
+    "print(sorted(xs)[0])\n",
+    "for k in d.keys():\n    print(d[k])\n",
+    "x: int = 7000\n",
+    "match x:\n    case 1:\n        a()\n    case _:\n        b()\n",
+    "async def co():\n    await a()\n",
+    "x = yield_ = (i async for i in a) if 0 else None\n",
+    "global_ = [*a, *[1, 2]]\n",
+    "x = y = z = 7000\n",
+    "del x\n",
+    "x = 1; y = 2\n",
+    "@dec\ndef d1():\n    return 7000\n",
+    "type X = int\n",
+]
+
+
+def eof_skeletons():
+    out = []
+    for i, snip in enumerate(EOF_SNIPS):
+        variants = {
+            "only": snip,
+            "last": "q = 1\n" + snip,
+            "first": snip + "q = 1\n",
+            "nested": "def fn(x, a, b, c, out, r, y, d, p, xs):\n" + textwrap.indent(snip, "    "),
+            "nested2": "class K:\n    def m(self, x, a, b, c, out, r, y, d, p, xs):\n" + textwrap.indent(snip, "        "),
+        }
+        for pos, text in variants.items():
+            try:
+                compile(text, "<eof>", "exec")
+            except SyntaxError:
+                continue
+            out.append(Skeleton("eof/%d/%s" % (i, pos), text, meta={"rule": None, "first_line": 0}))
+    return out
